@@ -467,6 +467,40 @@ fn main() {
         t
     });
 
+    // S3e: quotients with a prescribed digit string INSIDE the precision: prefix | d | 9^r (or 0^r) | tail for every
+    // run length r, every leading digit d of the run, prefixes of several lengths; every digit comes out of the
+    // digit loop (quotient < 1) and the divisor carries a long factor, so any per-digit estimate is exercised on
+    // "digit followed by a long run of nines / zeros"
+    let r3e: u64 = tier.pick(45, 90);
+    run.bound("S3e_run_lengths", format!("0..={}", r3e));
+    run.par("S3e digit runs inside the precision", (r3e + 1) as usize, |r| {
+        let mut t = Tally::default();
+        let two64: BigInt = BigInt::one() << 64usize;
+        let factors: Vec<BigInt> = vec![BigInt::from(1), BigInt::from(7), pow10(19) + 7, &two64 - 1, (&two64 << 3usize) + 5, big("12345678901234567890") * &two64 + (&two64 - 1)];
+        for prefix in ["", "7", "12345", "739000000000000000000000000001"] {
+            for d in [1u8, 4, 8, 9] {
+                for fill in ['9', '0'] {
+                    for tail in ["12", "5", "99999999999999999999999951"] {
+                        let digits = format!("{}{}{}{}", prefix, d, fill.to_string().repeat(r), tail);
+                        let tnum = big(&digits);
+                        let l = digits.len() as u64;
+                        for f in factors.iter() {
+                            for extra in [0i64, 1] {
+                                // a / b = 0.<digits>... : a = T*f + extra, b = f * 10^l
+                                let a: BigInt = &tnum * f + extra;
+                                let b: BigInt = f * pow10(l);
+                                t.states += 1;
+                                t.nontrivial += 4;
+                                check_dec(&run, &Dec { n: a, s: 0 }, &Dec { n: b, s: 0 }, &forms, &mut t);
+                            }
+                        }
+                    }
+                }
+            }
+        }
+        t
+    });
+
     // S3b: remainders next to den/2 at the rounding position, with long numerator tails:
     // a = (q*den + r)*10^k + t,  r in {floor(den/2), floor(den/2)+1},  t around 10^k/2
     let mut s3b: Vec<(Dec, Dec)> = vec![];
